@@ -199,7 +199,7 @@ func leafBracket(c *core.Ctx, name string, fn *ssa.Function, an *ir.Analysis) {
 		if len(cbs) == 2 {
 			ph1, k1 := callbackKind(cbs[1].Method.Name())
 			good = good && ph1 == "leave" && k1 == k0 && paramOf(cbs[1].A[0], fn, 2) && paramOf(cbs[1].A[1], fn, 1) && paramOf(cbs[1].A[2], fn, 0)
-			if p.Exit == ir.ExitReturn && p.Results[0].IsNil() {
+			if p.Exit == ir.ExitReturn && (p.Results[0].IsNil() || ir.Same(p.Results[0], cbs[1].R)) {
 				full++
 			}
 		} else if p.Exit == ir.ExitReturn && p.Results[0].IsNil() {
@@ -336,57 +336,99 @@ func typeNames(c *core.Ctx) {
 		}
 		ok := len(want) > 0
 		why := "constructor has no F[...] or T[...] parameter"
-		got := map[string]bool{}
+		got := map[string]types.Type{}
 		gotCarried := false
-		for _, b := range fn.Blocks {
-			for _, in := range b.Instrs {
-				st, isSt := in.(*ssa.Store)
-				if !isSt {
-					continue
+		conflict := ""
+		var scan func(f *ssa.Function, subst map[*types.TypeParam]types.Type, depth int)
+		resolve := func(t types.Type, subst map[*types.TypeParam]types.Type) types.Type {
+			if tp, isTP := t.(*types.TypeParam); isTP {
+				if r, okR := subst[tp]; okR {
+					return r
 				}
-				fa, isFA := st.Addr.(*ssa.FieldAddr)
-				if !isFA {
-					continue
-				}
-				fname := fieldNameOf(fa)
-				if call, isCall := st.Val.(*ssa.Call); isCall {
-					callee := call.Call.StaticCallee()
-					if callee != nil && callee.Origin() == typeOf {
-						w, expected := want[fname]
-						if !expected {
-							ok, why = false, "TypeOf is stored in unexpected field "+fname
+			}
+			return t
+		}
+		scan = func(f *ssa.Function, subst map[*types.TypeParam]types.Type, depth int) {
+			if depth > 3 {
+				return
+			}
+			for _, b := range f.Blocks {
+				for _, in := range b.Instrs {
+					switch x := in.(type) {
+					case *ssa.Store:
+						fa, isFA := x.Addr.(*ssa.FieldAddr)
+						if !isFA {
 							continue
 						}
-						ta := callee.TypeArgs()
-						if len(ta) != 1 || !types.Identical(ta[0], w) {
-							ok, why = false, fmt.Sprintf("field %s records TypeOf[%v], expected the step's own type parameter %v", fname, ta, w)
+						fname := fieldNameOf(fa)
+						v := x.Val
+						if mi, isMI := v.(*ssa.MakeInterface); isMI {
+							v = mi.X
 						}
-						got[fname] = true
-					}
-				}
-				if carried[fname] {
-					// value must be the carried payload of the parameter: (param).f / (param).v
-					v := st.Val
-					if mi, isMI := v.(*ssa.MakeInterface); isMI {
-						v = mi.X
-					}
-					if f, isF := v.(*ssa.Field); isF {
-						if _, isP := f.X.(*ssa.Parameter); isP {
-							gotCarried = true
+						if call, isCall := v.(*ssa.Call); isCall {
+							callee := call.Call.StaticCallee()
+							if callee != nil && callee.Origin() == typeOf && len(callee.TypeArgs()) == 1 {
+								t := resolve(callee.TypeArgs()[0], subst)
+								if old, seen := got[fname]; seen && !types.Identical(old, t) {
+									conflict = fname
+								}
+								got[fname] = t
+							}
 						}
-					}
-					if u, isU := v.(*ssa.UnOp); isU {
-						if fa2, isFA2 := u.X.(*ssa.FieldAddr); isFA2 {
-							_ = fa2
-							gotCarried = true
+						if carried[fname] {
+							// the payload: a field read of a parameter (f.f / p.v), possibly through a spill cell
+							switch y := v.(type) {
+							case *ssa.Field:
+								gotCarried = true
+							case *ssa.UnOp:
+								if _, isFA2 := y.X.(*ssa.FieldAddr); isFA2 {
+									gotCarried = true
+								}
+							case *ssa.Parameter:
+								gotCarried = true // handed down to a helper as a parameter
+							}
 						}
+					case *ssa.Call:
+						callee := x.Call.StaticCallee()
+						if callee == nil || callee.Origin() == typeOf {
+							continue
+						}
+						body := callee
+						if callee.Origin() != nil {
+							body = callee.Origin()
+						}
+						if body.Pkg == nil || body.Pkg != fn.Pkg || len(body.Blocks) == 0 {
+							continue
+						}
+						ns := map[*types.TypeParam]types.Type{}
+						if tps := body.TypeParams(); tps != nil {
+							ta := callee.TypeArgs()
+							for i := 0; i < tps.Len() && i < len(ta); i++ {
+								ns[tps.At(i)] = resolve(ta[i], subst)
+							}
+						}
+						scan(body, ns, depth+1)
 					}
 				}
 			}
 		}
-		for f := range want {
-			if ok && !got[f] {
+		scan(fn, map[*types.TypeParam]types.Type{}, 0)
+		if conflict != "" {
+			ok, why = false, "field "+conflict+" is set from different type parameters"
+		}
+		for f, w := range want {
+			g, has := got[f]
+			switch {
+			case !ok:
+			case !has:
 				ok, why = false, "field "+f+" is not set from TypeOf"
+			case !types.Identical(g, w):
+				ok, why = false, fmt.Sprintf("field %s records TypeOf[%v], expected the step's own type parameter %v", f, g, w)
+			}
+		}
+		for f := range got {
+			if _, expected := want[f]; !expected && ok {
+				ok, why = false, "TypeOf is stored in unexpected field "+f
 			}
 		}
 		if ok && !gotCarried {
@@ -396,10 +438,56 @@ func typeNames(c *core.Ctx) {
 	}
 }
 
+// seqMethods: the unexported methods of AstSeq by role: attach (Ast) bool, close () bool.
+func seqMethods(c *core.Ctx) (appendFn, unitFn *ssa.Function) {
+	pk := c.W.Pkgs["duct"]
+	tn, _ := pk.Types.Scope().Lookup("AstSeq").(*types.TypeName)
+	if tn == nil {
+		return nil, nil
+	}
+	nt := tn.Type().(*types.Named)
+	for i := 0; i < nt.NumMethods(); i++ {
+		m := nt.Method(i)
+		if m.Exported() {
+			continue
+		}
+		sig := m.Type().(*types.Signature)
+		if sig.Results().Len() != 1 || sig.Results().At(0).Type().String() != "bool" {
+			continue
+		}
+		switch sig.Params().Len() {
+		case 0:
+			unitFn = c.W.Prog.FuncValue(m)
+		case 1:
+			appendFn = c.W.Prog.FuncValue(m)
+		}
+	}
+	return
+}
+
+// codeField: the field of Morphism that holds the *AstSeq.
+func codeField(c *core.Ctx) string {
+	pk := c.W.Pkgs["duct"]
+	tn, _ := pk.Types.Scope().Lookup("Morphism").(*types.TypeName)
+	if tn == nil {
+		return ""
+	}
+	st, ok := tn.Type().Underlying().(*types.Struct)
+	if !ok {
+		return ""
+	}
+	for i := 0; i < st.NumFields(); i++ {
+		if _, isP := st.Field(i).Type().(*types.Pointer); isP {
+			return st.Field(i).Name()
+		}
+	}
+	return ""
+}
+
 // combinatorOps: what each combinator does to the code.
 func combinatorOps(c *core.Ctx) {
-	appendFn := c.W.Method("duct", "AstSeq", "append")
-	unitFn := c.W.Method("duct", "AstSeq", "unit")
+	appendFn, unitFn := seqMethods(c)
+	fCode := codeField(c)
 	type expect struct {
 		name      string
 		freshRoot bool
@@ -428,7 +516,7 @@ func combinatorOps(c *core.Ctx) {
 			continue
 		}
 		isCodeOfM := func(t *ir.Term) bool {
-			return t.Op == "field" && t.Aux == "code" && paramOf(t.Args[0], fn, len(fn.Params)-1)
+			return t.Op == "field" && t.Aux == fCode && paramOf(t.Args[0], fn, len(fn.Params)-1)
 		}
 		var appended []string
 		nUnit := 0
@@ -498,34 +586,61 @@ func combinatorOps(c *core.Ctx) {
 		if ok && (nUnit == 1) != e.unit {
 			ok, why = false, fmt.Sprintf("%d unit() calls", nUnit)
 		}
-		// fresh sequences: Root flag and Deferred
+		// fresh sequences (wherever they are allocated: here or in a helper): Root flag and Deferred, read from the
+		// literal in memory at the end of the path
 		if ok {
-			for _, al := range freshSeqs {
-				flags := map[string]string{}
-				for _, r := range *al.Referrers() {
-					if fa, isFA := r.(*ssa.FieldAddr); isFA {
-						for _, rr := range *fa.Referrers() {
-							if st, isSt := rr.(*ssa.Store); isSt {
-								if k, isK := st.Val.(*ssa.Const); isK && k.Value != nil {
-									flags[fieldNameOf(fa)] = k.Value.ExactString()
-								}
-							}
+			for _, p := range paths {
+				// fresh sequences of this path and the flags stored into them (a later opaque call may havoc the cell,
+				// so the stores themselves are read)
+				type flags struct{ root, deferred string }
+				fresh := map[string]*flags{}
+				for _, st := range p.Events(ir.KStore) {
+					a := st.A[0]
+					base := a
+					if a.Op == "faddr" {
+						base = a.Args[0]
+					}
+					if base.Op != "alloc" || !st.LocalStore {
+						continue
+					}
+					pt, isP := base.Typ.(*types.Pointer)
+					if !isP {
+						continue
+					}
+					if nt, isN := pt.Elem().(*types.Named); !isN || nt.Obj().Name() != "AstSeq" {
+						continue
+					}
+					fl := fresh[base.Key()]
+					if fl == nil {
+						fl = &flags{root: "false", deferred: "false"}
+						fresh[base.Key()] = fl
+					}
+					if a.Op == "faddr" && st.A[1].IsConst() {
+						switch a.Aux {
+						case "Root":
+							fl.root = st.A[1].Aux
+						case "Deferred":
+							fl.deferred = st.A[1].Aux
 						}
 					}
 				}
-				wantRoot := "false"
-				if e.freshRoot {
-					wantRoot = "true"
+				nFresh := len(fresh)
+				for _, fl := range fresh {
+					wantRoot := "false"
+					if e.freshRoot {
+						wantRoot = "true"
+					}
+					if fl.root != wantRoot || fl.deferred != "true" {
+						ok, why = false, fmt.Sprintf("a fresh sequence is created with Root=%s Deferred=%s, expected Root=%s Deferred=true (open)", fl.root, fl.deferred, wantRoot)
+					}
 				}
-				if flags["Root"] == "" {
-					flags["Root"] = "false"
+				wantFresh := 0
+				if e.freshRoot || e.name == "LiftF" || e.name == "WrapF" {
+					wantFresh = 1
 				}
-				if flags["Root"] != wantRoot || flags["Deferred"] != "true" {
-					ok, why = false, fmt.Sprintf("a fresh sequence is created with Root=%s Deferred=%s, expected Root=%s Deferred=true (open)", flags["Root"], flags["Deferred"], wantRoot)
+				if ok && nFresh != wantFresh {
+					ok, why = false, fmt.Sprintf("%d fresh sequences created, expected %d", nFresh, wantFresh)
 				}
-			}
-			if (e.freshRoot || e.name == "LiftF" || e.name == "WrapF") && len(freshSeqs) != 1 {
-				ok, why = false, fmt.Sprintf("%d fresh sequences created, expected 1", len(freshSeqs))
 			}
 		}
 		// the result wraps the same code
@@ -539,7 +654,7 @@ func combinatorOps(c *core.Ctx) {
 					if e.freshRoot {
 						good = v.Op == "alloc"
 					} else {
-						good = v.Op == "field" && v.Aux == "code" && paramOf(v.Args[0], fn, len(fn.Params)-1)
+						good = v.Op == "field" && v.Aux == fCode && paramOf(v.Args[0], fn, len(fn.Params)-1)
 					}
 				}
 				if !good {
@@ -583,10 +698,15 @@ func deferredAtom(fn *ssa.Function) *ir.Term {
 }
 
 func appendDiscipline(c *core.Ctx) {
-	fn := c.W.Method("duct", "AstSeq", "append")
+	fn, _ := seqMethods(c)
 	name := "duct.AstSeq.append"
 	if fn == nil {
 		c.Undecided("append-discipline", name, 0, "anchor not found")
+		return
+	}
+	if !selfRecursive(fn) {
+		why := iterativeDiscipline(c, fn, "append")
+		c.Check(why == "", "append-discipline", name, fn.Pos(), "closed => false; descend while the last child is an open nested sequence; exactly one append there", "%s", why)
 		return
 	}
 	an := c.Analyze(fn)
@@ -696,10 +816,15 @@ func appendDiscipline(c *core.Ctx) {
 }
 
 func unitDiscipline(c *core.Ctx) {
-	fn := c.W.Method("duct", "AstSeq", "unit")
+	_, fn := seqMethods(c)
 	name := "duct.AstSeq.unit"
 	if fn == nil {
 		c.Undecided("unit-discipline", name, 0, "anchor not found")
+		return
+	}
+	if !selfRecursive(fn) {
+		why := iterativeDiscipline(c, fn, "unit")
+		c.Check(why == "", "unit-discipline", name, fn.Pos(), "closed => false; descend while the last child is an open nested sequence; close it unless it is the root", "%s", why)
 		return
 	}
 	an := c.Analyze(fn)
@@ -797,4 +922,166 @@ func unitDiscipline(c *core.Ctx) {
 		}
 	}
 	c.Check(ok && sawRefuse && sawClose && sawRootKeep && sawDelegate, "unit-discipline", name, fn.Pos(), "closed => false; open last child first; else close self unless root", "not all cases of the discipline are present (refuse=%v close=%v root=%v delegate=%v)", sawRefuse, sawClose, sawRootKeep, sawDelegate)
+}
+
+func selfRecursive(fn *ssa.Function) bool {
+	for _, b := range fn.Blocks {
+		for _, in := range b.Instrs {
+			if call, ok := in.(ssa.CallInstruction); ok {
+				if sc := call.Common().StaticCallee(); sc != nil && (sc == fn || sc.Origin() == fn) {
+					return true
+				}
+			}
+		}
+	}
+	return false
+}
+
+// iterativeDiscipline recognises the loop form of the append / unit disciplines: a cursor starts at the receiver
+// and steps into the last child while that child is a nested sequence that is still open; the effect (one append,
+// or closing unless root) is then applied to the cursor. Returns "" when the method has exactly this shape.
+func iterativeDiscipline(c *core.Ctx, fn *ssa.Function, effect string) string {
+	an := c.AnalyzeLoops(fn)
+	if len(an.Problems) > 0 {
+		return "could not be modelled: " + strings.Join(an.Problems, "; ")
+	}
+	if len(an.Headers) != 1 {
+		return fmt.Sprintf("neither the recursive form nor a single descent loop (%d loops)", len(an.Headers))
+	}
+	h := an.Headers[0]
+	var cursor *ssa.Phi
+	for _, in := range h.Instrs {
+		if phi, ok := in.(*ssa.Phi); ok {
+			if _, isP := phi.Type().(*types.Pointer); isP {
+				cursor = phi
+			}
+		}
+	}
+	if cursor == nil {
+		return "no cursor in the descent loop"
+	}
+	at := an.Start[h].Reg(cursor)
+	fld := func(base *ir.Term, f string) *ir.Term {
+		return &ir.Term{Op: "load", Aux: "0", Args: []*ir.Term{{Op: "faddr", Aux: f, Args: []*ir.Term{base}}}}
+	}
+	// entry: closed => false without mutation; otherwise the cursor starts at the receiver
+	sawRefuse := false
+	for _, p := range an.Segs[nil] {
+		open := polarity(p, fld(&ir.Term{Op: "param", Aux: fn.Params[0].Name()}, "Deferred"))
+		switch {
+		case open == 0:
+			return "the method does not first test whether the receiver is still open"
+		case open < 0:
+			sawRefuse = true
+			rv, isRet := retBool(p)
+			if !isRet || rv || len(nonLocalStores(p)) != 0 {
+				return "a closed sequence must refuse (false) without mutation"
+			}
+		default:
+			if p.To != h || !paramOf(p.PhiOut[cursor], fn, 0) || len(nonLocalStores(p)) != 0 {
+				return "the descent does not start at the receiver"
+			}
+		}
+	}
+	if !sawRefuse {
+		return "no refusing path for a closed sequence"
+	}
+	seqOf := fld(at, "Seq")
+	last := &ir.Term{Op: "load", Aux: "0", Args: []*ir.Term{{Op: "iaddr", Args: []*ir.Term{seqOf, {Op: "bin", Aux: "-", Args: []*ir.Term{{Op: "len", Args: []*ir.Term{seqOf}}, ir.Const("1")}}}}}}
+	childOf := func(p *ir.Path) (*ir.Term, int, int, int) {
+		// polarity of: non-empty, last child is a nested sequence, that child is open
+		nonEmpty := 0
+		for _, st := range p.Events(ir.KBranch) {
+			a := st.Atom
+			if a.Op == "bin" && a.Aux == "<" && a.Args[1].Op == "len" && ir.Same(a.Args[1].Args[0], seqOf) {
+				if z, isZ := a.Args[0].IntConst(); isZ && z == 0 {
+					nonEmpty = polInt(st.Pol)
+				}
+			}
+			if a.Op == "bin" && a.Aux == "==" {
+				for i := 0; i < 2; i++ {
+					if z, isZ := a.Args[i].IntConst(); isZ && z == 0 && a.Args[1-i].Op == "len" && ir.Same(a.Args[1-i].Args[0], seqOf) {
+						nonEmpty = -polInt(st.Pol)
+					}
+				}
+			}
+		}
+		var child *ir.Term
+		isSeq, isOpen := 0, 0
+		for _, st := range p.Events(ir.KBranch) {
+			a := st.Atom
+			if a.Op == "extract" && a.Aux == "1" && a.Args[0].Op == "tassert" && ir.Same(a.Args[0].Args[0], last) {
+				isSeq = polInt(st.Pol)
+				child = &ir.Term{Op: "extract", Aux: "0", Args: []*ir.Term{a.Args[0]}}
+			}
+		}
+		if child != nil {
+			isOpen = polarity(p, fld(child, "Deferred"))
+		}
+		return child, nonEmpty, isSeq, isOpen
+	}
+	sawStep, sawStop := false, false
+	for _, p := range an.Segs[h] {
+		child, nonEmpty, isSeq, isOpen := childOf(p)
+		if p.To == h {
+			// one step down: all three conditions hold, cursor := child, nothing else happens
+			if !(nonEmpty > 0 && isSeq > 0 && isOpen > 0 && child != nil && ir.Same(p.PhiOut[cursor], child) && len(nonLocalStores(p)) == 0 && len(calls(p)) == 0) {
+				return "a descent step must move the cursor to the last child exactly when that child is a nested sequence that is still open"
+			}
+			sawStep = true
+			continue
+		}
+		// the descent stops here: at least one condition fails
+		if nonEmpty > 0 && isSeq > 0 && isOpen > 0 {
+			return "the descent stops although the last child is an open nested sequence (the node would land one level too shallow / the wrong context is closed)"
+		}
+		if nonEmpty == 0 || (nonEmpty > 0 && isSeq == 0) || (isSeq > 0 && isOpen == 0) {
+			return "the descent stops without having decided emptiness / kind / openness of the last child"
+		}
+		sawStop = true
+		rv, isRet := retBool(p)
+		if !isRet || !rv {
+			return "an open sequence must accept (true)"
+		}
+		stores := nonLocalStores(p)
+		switch effect {
+		case "append":
+			good := len(stores) == 1 && stores[0].Kind == ir.KStore && stores[0].A[0].Op == "faddr" && stores[0].A[0].Aux == "Seq" && ir.Same(stores[0].A[0].Args[0], at) &&
+				stores[0].A[1].Op == "append" && ir.Same(stores[0].A[1].Args[0], seqOf)
+			if good {
+				arr := stores[0].A[1].Args[1]
+				good = false
+				for _, s2 := range p.Events(ir.KStore) {
+					if s2.A[0].Op == "iaddr" && arr.Op == "slice" && ir.Same(s2.A[0].Args[0], arr.Args[0]) && paramOf(s2.A[1], fn, 1) {
+						good = true
+					}
+				}
+			}
+			if !good {
+				return fmt.Sprintf("at the innermost open sequence exactly one append of the given node must happen (found %d stores)", len(stores))
+			}
+		case "unit":
+			root := polarity(p, fld(at, "Root"))
+			closes := 0
+			for _, st := range stores {
+				if st.Kind == ir.KStore && st.A[0].Op == "faddr" && st.A[0].Aux == "Deferred" && ir.Same(st.A[0].Args[0], at) && st.A[1].IsConst() && st.A[1].Aux == "false" {
+					closes++
+				} else {
+					return "unit mutates something other than the innermost open sequence's Deferred flag"
+				}
+			}
+			switch {
+			case root == 0:
+				return "the innermost open sequence is closed (or not) without testing whether it is the root"
+			case root > 0 && closes != 0:
+				return "the root morphism is closed"
+			case root < 0 && closes != 1:
+				return "the innermost open non-root sequence must be closed exactly once"
+			}
+		}
+	}
+	if !sawStep || !sawStop {
+		return "the descent loop never steps or never stops"
+	}
+	return ""
 }
